@@ -1,5 +1,633 @@
-//! further properties (filled in progressively)
+//! C05 C06 (tables), C07 (prefixed blocks), C16 (custom decorators)
+use crate::core::*;
+use crate::dom::*;
+use crate::gen::*;
+use crate::pool::*;
 use crate::props::*;
-pub fn prop_def5(_id: &str) -> Option<PropDef> {
-    None
+use crate::props2::*;
+use std::collections::HashMap;
+
+fn dom_of(r: &RunResult) -> Vec<DNode> {
+    decode_dom(&r.dom_wire).unwrap_or_default()
+}
+fn groups(cases: &[Case]) -> Vec<Vec<usize>> {
+    let mut m: HashMap<usize, Vec<usize>> = HashMap::new();
+    let mut order = Vec::new();
+    for (i, c) in cases.iter().enumerate() {
+        let e = m.entry(c.group).or_default();
+        if e.is_empty() {
+            order.push(c.group);
+        }
+        e.push(i);
+    }
+    order.into_iter().map(|g| m.remove(&g).unwrap()).collect()
+}
+
+// ======================================================================
+// regular tables
+// ======================================================================
+/// A regular table: every row tiles `cols` columns with colspans.  Returns the html and,
+/// per row, the (colspan, token) list (token empty for an empty cell).
+fn regular_table(rng: &mut Rng, tokn: &mut usize, allow_empty: bool, nested: bool, depth: usize) -> (String, Vec<Vec<(usize, String)>>) {
+    let rows = rng.range(1, 5);
+    let cols = rng.range(1, 6);
+    let mut layout = Vec::new();
+    let mut html = String::from("<table>");
+    let use_sections = rng.chance(1, 4) && rows > 1;
+    for r in 0..rows {
+        if use_sections && r == 0 {
+            html.push_str("<thead>");
+        }
+        if use_sections && r == 1 {
+            html.push_str("</thead><tbody>");
+        }
+        html.push_str("<tr>");
+        let mut row = Vec::new();
+        let mut c = 0;
+        while c < cols {
+            let span = if rng.chance(1, 4) { rng.range(1, cols - c) } else { 1 };
+            let kind = rng.below(10);
+            let mut tok = String::new();
+            let content = if allow_empty && kind == 0 {
+                String::new()
+            } else if nested && depth > 0 && kind == 1 {
+                let (t, _) = regular_table(rng, tokn, false, false, depth - 1);
+                *tokn += 1;
+                tok = format!("t{}x", *tokn);
+                format!("{}{}", tok, t)
+            } else {
+                *tokn += 1;
+                tok = format!("t{}x", *tokn);
+                match kind {
+                    2 => format!("{} {}", tok, "word ".repeat(rng.range(1, 8)).trim_end()),
+                    3 => format!("{}<br>more", tok),
+                    4 => format!("{}中文字", tok),
+                    5 => format!("<p>{}</p><p>para</p>", tok),
+                    _ => tok.clone(),
+                }
+            };
+            let tag = if rng.chance(1, 6) { "th" } else { "td" };
+            if span > 1 {
+                html.push_str(&format!("<{} colspan=\"{}\">{}</{}>", tag, span, content, tag));
+            } else {
+                html.push_str(&format!("<{}>{}</{}>", tag, content, tag));
+            }
+            row.push((span, tok));
+            c += span;
+        }
+        html.push_str("</tr>");
+        layout.push(row);
+    }
+    if use_sections {
+        html.push_str("</tbody>");
+    }
+    html.push_str("</table>");
+    (html, layout)
+}
+
+fn is_rule_glyph(c: char) -> bool {
+    matches!(c, '─' | '┬' | '┴' | '┼')
+}
+fn has_up(c: char) -> bool {
+    matches!(c, '│' | '┴' | '┼')
+}
+fn has_down(c: char) -> bool {
+    matches!(c, '│' | '┬' | '┼')
+}
+
+/// the output as a grid of (char, x) cells by display column
+fn grid(lines: &[String]) -> Vec<Vec<char>> {
+    lines
+        .iter()
+        .map(|l| {
+            let mut row = Vec::new();
+            for ch in l.chars() {
+                let w = cw(ch);
+                if w == 0 {
+                    continue;
+                }
+                row.push(ch);
+                for _ in 1..w {
+                    row.push('\u{0}'); // continuation column of a wide character
+                }
+            }
+            row
+        })
+        .collect()
+}
+
+fn gen_tables(tier: &str, rng: &mut Rng, slice: &'static str, allow_empty: bool) -> Vec<Case> {
+    let n = if tier == "thorough" { 80000 } else { 4000 };
+    let mut cases = Vec::new();
+    let mut tokn = 0usize;
+    for _ in 0..n {
+        let nested = rng.chance(1, 4);
+        let (html, layout) = regular_table(rng, &mut tokn, allow_empty, nested, 1);
+        let w = if rng.chance(1, 3) { rng.range(1, 25) } else { rng.range(1, 100) };
+        let cfg = Cfg { deco: 1, ..Default::default() };
+        let mut strs = Vec::new();
+        for row in &layout {
+            strs.push(row.iter().map(|(s, t)| format!("{}:{}", s, t)).collect::<Vec<_>>().join(","));
+        }
+        let id = cases.len();
+        cases.push(mk_case(id, 0, cfg, w, html.into_bytes(), Some(0), Meta::G { role: "table", strs, nums: vec![nested as i64] }, slice));
+    }
+    cases
+}
+fn gen_c05(tier: &str, rng: &mut Rng) -> Vec<Case> {
+    gen_tables(tier, rng, "regular", true)
+}
+fn gen_c06(tier: &str, rng: &mut Rng) -> Vec<Case> {
+    gen_tables(tier, rng, "regular_nonempty", false)
+}
+
+fn stacked(lines: &[String]) -> bool {
+    lines.iter().any(|l| !l.is_empty() && l.chars().all(|c| c == '/'))
+}
+
+fn check_c05(cases: &[Case], results: &[Option<RunResult>]) -> Vec<Violation> {
+    let mut v = Vec::new();
+    for (i, c) in cases.iter().enumerate() {
+        if c.meta.role() != "table" {
+            continue;
+        }
+        let r = match &results[i] {
+            Some(r) => r,
+            None => continue,
+        };
+        let lines = match out_lines(&r.outcome) {
+            Some(l) => l,
+            None => continue,
+        };
+        if lines.is_empty() {
+            continue;
+        }
+        let g = grid(&lines);
+        let is_stacked = stacked(&lines);
+        let layout: Vec<Vec<(usize, String)>> = c.meta.strs().iter().map(|row| row.split(',').map(|x| { let mut p = x.splitn(2, ':'); (p.next().unwrap().parse().unwrap(), p.next().unwrap_or("").to_string()) }).collect()).collect();
+        let ncols: usize = layout[0].iter().map(|x| x.0).sum();
+        // a colspan over a column that is empty in all its single-span cells (known A-17)
+        let mut col_has_single = vec![false; ncols];
+        for row in &layout {
+            let mut cidx = 0;
+            for (span, tok) in row {
+                if *span == 1 && !tok.is_empty() {
+                    col_has_single[cidx] = true;
+                }
+                cidx += span;
+            }
+        }
+        let has_span = layout.iter().any(|row| row.iter().any(|x| x.0 > 1));
+        let zero_col_under_span = has_span && col_has_single.iter().any(|b| !*b);
+        let known = if zero_col_under_span { Some("zero_width_column_under_colspan") } else { None };
+        // local junction consistency everywhere (also inside nested tables)
+        let at = |y: isize, x: usize| -> char {
+            if y < 0 || y as usize >= g.len() {
+                return ' ';
+            }
+            *g[y as usize].get(x).unwrap_or(&' ')
+        };
+        let mut bad = None;
+        'outer: for y in 0..g.len() {
+            for x in 0..g[y].len() {
+                let ch = g[y][x];
+                if is_rule_glyph(ch) {
+                    let up = has_down(at(y as isize - 1, x));
+                    let down = has_up(at(y as isize + 1, x));
+                    if has_up(ch) != up || has_down(ch) != down {
+                        bad = Some((y, x, ch));
+                        break 'outer;
+                    }
+                }
+            }
+        }
+        if let Some((y, x, ch)) = bad {
+            v.push(viol(i, "junction glyph does not match the bars above and below", format!("line {} column {} glyph {:?}\n{}", y, x, ch, lines.join("\n")), known));
+            continue;
+        }
+        if is_stacked {
+            // stacked form: full-width cells separated by '/' rules; nothing more to check here
+            continue;
+        }
+        // first and last lines are rules
+        let first_ok = lines[0].chars().all(is_rule_glyph);
+        let last_ok = lines[lines.len() - 1].chars().all(is_rule_glyph);
+        if !first_ok || !last_ok {
+            v.push(viol(i, "first/last line of the table is not a horizontal rule", lines.join("\n"), known));
+            continue;
+        }
+        if ncols >= 2 && lines.iter().any(|l| l.contains('│')) {
+            let w0 = g[0].len();
+            if let Some(y) = (0..g.len()).find(|&y| g[y].len() != w0) {
+                v.push(viol(i, "table lines have different display widths", format!("line {} has {} columns, the first {}\n{}", y, g[y].len(), w0, lines.join("\n")), known));
+                continue;
+            }
+        }
+        if c.meta.nums()[0] == 0 {
+            // flat table: in each band (between full rules) bars are at the same positions
+            let mut band: Option<Vec<usize>> = None;
+            for y in 0..g.len() {
+                let full_rule = lines[y].chars().all(is_rule_glyph) && !lines[y].is_empty();
+                if full_rule {
+                    band = None;
+                    continue;
+                }
+                let bars: Vec<usize> = (0..g[y].len()).filter(|&x| g[y][x] == '│').collect();
+                match &band {
+                    None => band = Some(bars),
+                    Some(b) => {
+                        if *b != bars {
+                            v.push(viol(i, "vertical bars move within a row", format!("line {}\n{}", y, lines.join("\n")), known));
+                            break;
+                        }
+                    }
+                }
+            }
+        }
+    }
+    v
+}
+fn nontrivial_tables(_c: &Case, r: &RunResult) -> bool {
+    r.outcome.text().map(|t| t.contains('│')).unwrap_or(false)
+}
+
+fn check_c06(cases: &[Case], results: &[Option<RunResult>]) -> Vec<Violation> {
+    let mut v = Vec::new();
+    for (i, c) in cases.iter().enumerate() {
+        if c.meta.role() != "table" || c.meta.nums()[0] != 0 {
+            continue; // cell placement is checked on flat tables
+        }
+        let r = match &results[i] {
+            Some(r) => r,
+            None => continue,
+        };
+        let lines = match out_lines(&r.outcome) {
+            Some(l) => l,
+            None => continue,
+        };
+        if lines.is_empty() || stacked(&lines) {
+            continue;
+        }
+        let layout: Vec<Vec<(usize, String)>> = c.meta.strs().iter().map(|row| row.split(',').map(|x| { let mut p = x.splitn(2, ':'); (p.next().unwrap().parse().unwrap(), p.next().unwrap_or("").to_string()) }).collect()).collect();
+        let ncols: usize = layout[0].iter().map(|x| x.0).sum();
+        let g = grid(&lines);
+        if !lines[0].chars().all(is_rule_glyph) {
+            continue; // a single-column table that went the stacked route has no '/' rule
+        }
+        // bands = runs of lines between full rules
+        let mut bands: Vec<(usize, usize)> = Vec::new();
+        let mut start = None;
+        for y in 0..lines.len() {
+            let full_rule = !lines[y].is_empty() && lines[y].chars().all(is_rule_glyph);
+            if full_rule {
+                if let Some(s) = start.take() {
+                    bands.push((s, y));
+                }
+            } else if start.is_none() {
+                start = Some(y);
+            }
+        }
+        if bands.len() != layout.len() {
+            v.push(viol(i, "number of row bands differs from the number of rows", format!("{} bands for {} rows\n{}", bands.len(), layout.len(), lines.join("\n")), None));
+            continue;
+        }
+        // column boundaries: union of bar positions over all bands must give ncols-1 boundaries
+        let mut bounds: Vec<usize> = Vec::new();
+        for (s, e) in &bands {
+            for y in *s..*e {
+                for x in 0..g[y].len() {
+                    if g[y][x] == '│' && !bounds.contains(&x) {
+                        bounds.push(x);
+                    }
+                }
+            }
+        }
+        bounds.sort();
+        // effective column boundaries: positions where some row has a cell boundary
+        let mut eff: Vec<usize> = Vec::new();
+        for row in &layout {
+            let mut cidx = 0;
+            for (span, _) in row {
+                cidx += span;
+                if cidx < ncols && !eff.contains(&cidx) {
+                    eff.push(cidx);
+                }
+            }
+        }
+        eff.sort();
+        if bounds.len() != eff.len() {
+            v.push(viol(i, "column boundaries are not identical in every row", format!("{} bar positions for {} column boundaries\n{}", bounds.len(), eff.len(), lines.join("\n")), None));
+            continue;
+        }
+        let total_w = g[0].len();
+        let left = |cidx: usize| if cidx == 0 { 0 } else { bounds[eff.iter().position(|e| *e == cidx).unwrap()] + 1 };
+        let right = |cend: usize| if cend == ncols { total_w } else { bounds[eff.iter().position(|e| *e == cend).unwrap()] };
+        for (ri, row) in layout.iter().enumerate() {
+            let mut cidx = 0;
+            for (span, tok) in row {
+                if !tok.is_empty() {
+                    let (lo, hi) = (left(cidx), right(cidx + span));
+                    let mut found = false;
+                    for (y, l) in lines.iter().enumerate() {
+                        if let Some(bp) = l.find(tok.as_str()) {
+                            let x0 = str_width(&l[..bp]);
+                            let x1 = x0 + str_width(tok);
+                            found = true;
+                            let (bs, be) = bands[ri];
+                            if y < bs || y >= be {
+                                v.push(viol(i, "cell text outside its row band", format!("token {} on line {}\n{}", tok, y, lines.join("\n")), None));
+                            } else if x0 < lo || x1 > hi {
+                                v.push(viol(i, "cell text outside the columns it spans", format!("token {} at {}..{} expected within {}..{}\n{}", tok, x0, x1, lo, hi, lines.join("\n")), None));
+                            }
+                        }
+                    }
+                    if !found && hi >= lo + str_width(tok) {
+                        v.push(viol(i, "a non-empty cell has no text in the output", format!("token {} (columns {}..{})\n{}", tok, lo, hi, lines.join("\n")), None));
+                    }
+                }
+                cidx += span;
+            }
+        }
+        if g[0].len() > c.spec.width {
+            v.push(viol(i, "table wider than the width", String::new(), None));
+        }
+    }
+    v
+}
+
+// ======================================================================
+// C07 prefixes and numbering
+// ======================================================================
+fn gen_c07(tier: &str, rng: &mut Rng) -> Vec<Case> {
+    let n = if tier == "thorough" { 60000 } else { 3000 };
+    let mut cases = Vec::new();
+    for gi in 0..n {
+        let o = GenOpts { tables: 0, pre: rng.chance(1, 4), links: false, ids: false, imgs: false, sup: false, strike: false, br: true, dl: true, max_blocks: 3, max_depth: 2, ..Default::default() };
+        let (inner, _) = gen_doc(rng, o.clone());
+        let deco = *rng.pick(&[0u8, 1, 2, 3]);
+        let kind = rng.below(6);
+        let start: i64 = *rng.pick(&[-100i64, -10, -1, 0, 1, 9, 10, 98, 99, 999]);
+        let (outer, prefix_first, prefix_rest): (String, String, String) = match kind {
+            0 => (format!("<ul><li>{}</li></ul>", inner), "* ".into(), "  ".into()),
+            1 => (format!("<blockquote>{}</blockquote>", inner), "> ".into(), "> ".into()),
+            2 => {
+                let p = format!("{}. ", start);
+                (format!("<ol start=\"{}\"><li>{}</li></ol>", start, inner), p.clone(), " ".repeat(p.len()))
+            }
+            3 => (format!("<dl><dd>{}</dd></dl>", inner), "  ".into(), "  ".into()),
+            _ => {
+                // headings take inline content
+                let mut gnr = Gen::new(rng, GenOpts { links: false, ids: false, imgs: false, sup: false, strike: false, br: false, ..Default::default() });
+                let mut b = 8;
+                let inl = to_html(&gnr.inline(1, &mut b));
+                let lvl = rng.range(1, 6);
+                let p = format!("{} ", "#".repeat(lvl));
+                let html = format!("<h{}>{}</h{}>", lvl, inl, lvl);
+                let id = cases.len();
+                let w = rng.range(4, 100);
+                let cfg = Cfg { deco, footnotes: 2, ..Default::default() };
+                let (pf, pw) = if deco == 3 { (String::new(), 0) } else { (p.clone(), p.len()) };
+                let mut c1 = mk_case(id, 0, cfg.clone(), w, html.into_bytes(), Some(0), Meta::G { role: "outer", strs: vec![pf.clone(), pf], nums: vec![] }, "heading");
+                c1.group = gi;
+                cases.push(c1);
+                let id = cases.len();
+                let mut c2 = mk_case(id, 0, cfg, w.saturating_sub(pw), format!("<p>{}</p>", inl).into_bytes(), Some(0), g("inner"), "heading");
+                c2.group = gi;
+                cases.push(c2);
+                continue;
+            }
+        };
+        let (pf, pr) = if deco == 3 {
+            if kind == 3 { ("  ".to_string(), "  ".to_string()) } else { (String::new(), String::new()) }
+        } else {
+            (prefix_first, prefix_rest)
+        };
+        let w = rng.range(4, 100);
+        let cfg = Cfg { deco, footnotes: 2, ..Default::default() };
+        let id = cases.len();
+        let mut c1 = mk_case(id, 0, cfg.clone(), w, outer.into_bytes(), Some(0), Meta::G { role: "outer", strs: vec![pf.clone(), pr], nums: vec![] }, ["ul", "blockquote", "ol", "dd", "h", "h"][kind]);
+        c1.group = gi;
+        cases.push(c1);
+        let id = cases.len();
+        let mut c2 = mk_case(id, 0, cfg, w.saturating_sub(str_width(&pf)), inner.into_bytes(), Some(0), g("inner"), ["ul", "blockquote", "ol", "dd", "h", "h"][kind]);
+        c2.group = gi;
+        cases.push(c2);
+    }
+    // numbering: n short items from `start`
+    let nn = if tier == "thorough" { 20000 } else { 1500 };
+    for _ in 0..nn {
+        let start: i64 = *rng.pick(&[-100i64, -12, -10, -9, -1, 0, 1, 2, 8, 9, 10, 95, 98, 99, 100, 995, 999]);
+        let absent = rng.chance(1, 5);
+        let nitems = rng.range(1, 15);
+        let mut html = if absent { String::from("<ol>") } else { format!("<ol start=\"{}\">", start) };
+        for k in 0..nitems {
+            html.push_str(&format!("<li>item{}</li>", k));
+        }
+        html.push_str("</ol>");
+        let deco = *rng.pick(&[0u8, 1, 2]);
+        let id = cases.len();
+        cases.push(mk_case(id, 0, Cfg { deco, ..Default::default() }, rng.range(12, 100), html.into_bytes(), Some(0), Meta::G { role: "numbering", strs: vec![], nums: vec![if absent { 1 } else { start }, nitems as i64] }, "numbering"));
+    }
+    cases
+}
+fn check_c07(cases: &[Case], results: &[Option<RunResult>]) -> Vec<Violation> {
+    let mut v = Vec::new();
+    for grp in groups(cases) {
+        if grp.len() == 2 {
+            let (a, b) = (grp[0], grp[1]);
+            let (ra, rb) = match (&results[a], &results[b]) {
+                (Some(x), Some(y)) => (x, y),
+                _ => continue,
+            };
+            if cases[a].meta.role() != "outer" {
+                continue;
+            }
+            let outer = match out_lines(&ra.outcome) {
+                Some(l) => l,
+                None => continue, // the outer rendering did not succeed: nothing is claimed
+            };
+            let inner = match out_lines(&rb.outcome) {
+                Some(l) => l,
+                None => {
+                    v.push(viol(a, "nested content renders although it does not render standalone at the narrower width", format!("inner {}", rb.outcome.kind()), None));
+                    continue;
+                }
+            };
+            let pf = &cases[a].meta.strs()[0];
+            let pr = &cases[a].meta.strs()[1];
+            let expect: Vec<String> = inner.iter().enumerate().map(|(k, l)| format!("{}{}", if k == 0 { pf } else { pr }, l)).collect();
+            let norm = |v: &Vec<String>| v.iter().map(|l| l.trim_end().to_string()).collect::<Vec<_>>();
+            if norm(&expect) != norm(&outer) {
+                v.push(viol(a, "block is not its content rendered at the narrower width with a prefix on every line", format!("{} expected {:?} got {:?}", cases[a].slice, expect, outer), None));
+            }
+        } else if grp.len() == 1 {
+            let i = grp[0];
+            if cases[i].meta.role() != "numbering" {
+                continue;
+            }
+            let r = match &results[i] {
+                Some(r) => r,
+                None => continue,
+            };
+            let lines = match out_lines(&r.outcome) {
+                Some(l) => l,
+                None => continue,
+            };
+            let start = cases[i].meta.nums()[0];
+            let n = cases[i].meta.nums()[1];
+            let width = (start..start + n).map(|k| format!("{}. ", k).len()).max().unwrap_or(0);
+            let expect: Vec<String> = (0..n).map(|k| format!("{:<w$}item{}", format!("{}. ", start + k), k, w = width)).collect();
+            if lines != expect {
+                v.push(viol(i, "ordered items are not numbered consecutively from start with a common marker width", format!("expected {:?} got {:?}", expect, lines), None));
+            }
+        }
+    }
+    v
+}
+fn nontrivial_c07(c: &Case, r: &RunResult) -> bool {
+    (c.meta.role() == "outer" || c.meta.role() == "numbering") && out_lines(&r.outcome).map(|l| l.len() >= 2).unwrap_or(false)
+}
+
+// ======================================================================
+// C16 custom decorators
+// ======================================================================
+const AFFIX: [&str; 9] = ["", "*", "_", "<<", "§", "•", "│", "）", "〖"];
+const PREFIX: [&str; 9] = ["> ", "| ", "§ ", "│ ", "• ", "- ", "〖", "", "） "];
+fn rand_custom(rng: &mut Rng) -> Vec<String> {
+    let mut v: Vec<String> = Vec::new();
+    for _ in 0..12 {
+        v.push(rng.pick(&AFFIX).to_string());
+    }
+    v.push(rng.pick(&["#", "=", "§", "〖"]).to_string()); // heading unit
+    v.push(rng.pick(&PREFIX).to_string()); // quote
+    v.push(rng.pick(&PREFIX).to_string()); // bullet
+    v.push(rng.pick(&[". ", ") ", "） ", "§ ", ""]).to_string()); // ordered suffix
+    v
+}
+fn gen_c16(tier: &str, rng: &mut Rng) -> Vec<Case> {
+    let n = if tier == "thorough" { 60000 } else { 3000 };
+    let mut cases = Vec::new();
+    for gi in 0..n {
+        let custom = rand_custom(rng);
+        let cfg = Cfg { deco: 4, custom: custom.clone(), ..Default::default() };
+        let w = rng.range(4, 80);
+        if rng.chance(1, 2) {
+            // whole documents: no panic, width bound, affixes verbatim
+            let (html, _) = gen_doc(rng, GenOpts { tables: 1, links: true, imgs: true, strike: true, dl: true, ..Default::default() });
+            let id = cases.len();
+            cases.push(mk_case(id, 0, cfg, w, html.into_bytes(), Some(0), Meta::G { role: "doc", strs: custom, nums: vec![] }, "documents"));
+        } else {
+            // compositionality with the display width of the prefix
+            let o = GenOpts { tables: 0, links: false, ids: false, imgs: false, sup: false, strike: false, max_blocks: 2, max_depth: 1, ..Default::default() };
+            let (inner, _) = gen_doc(rng, o);
+            let kind = rng.below(3);
+            let start = *rng.pick(&[1i64, 9, 99, -5]);
+            let (outer, pf, pr) = match kind {
+                0 => (format!("<ul><li>{}</li></ul>", inner), custom[14].clone(), " ".repeat(str_width(&custom[14]))),
+                1 => (format!("<blockquote>{}</blockquote>", inner), custom[13].clone(), custom[13].clone()),
+                _ => {
+                    let p = format!("{}{}", start, custom[15]);
+                    (format!("<ol start=\"{}\"><li>{}</li></ol>", start, inner), p.clone(), " ".repeat(str_width(&p)))
+                }
+            };
+            let id = cases.len();
+            let mut c1 = mk_case(id, 0, cfg.clone(), w, outer.into_bytes(), Some(0), Meta::G { role: "outer", strs: vec![pf.clone(), pr], nums: vec![] }, ["ul", "blockquote", "ol"][kind]);
+            c1.group = gi;
+            cases.push(c1);
+            let id = cases.len();
+            let mut c2 = mk_case(id, 0, cfg, w.saturating_sub(str_width(&pf)), inner.into_bytes(), Some(0), g("inner"), ["ul", "blockquote", "ol"][kind]);
+            c2.group = gi;
+            cases.push(c2);
+        }
+    }
+    // the trivial decorator produces nothing but text, whitespace and borders: C03's direct check
+    cases
+}
+fn check_c16(cases: &[Case], results: &[Option<RunResult>]) -> Vec<Violation> {
+    let mut v = Vec::new();
+    for (i, c) in cases.iter().enumerate() {
+        let r = match &results[i] {
+            Some(r) => r,
+            None => continue,
+        };
+        match &r.outcome {
+            Outcome::Panic(_) | Outcome::Hang | Outcome::OtherErr(_) => {
+                v.push(viol(i, &format!("custom decorator made rendering {}", r.outcome.kind()), r.panic_msg.clone(), None));
+                continue;
+            }
+            _ => {}
+        }
+        if !r.regular {
+            continue;
+        }
+        if let Some(lines) = out_lines(&r.outcome) {
+            for l in &lines {
+                if str_width(l) > c.spec.width {
+                    v.push(viol(i, "line wider than the width with a custom decorator", format!("width {} line {:?}", c.spec.width, l), None));
+                    break;
+                }
+            }
+            if c.meta.role() == "doc" {
+                // em affixes surround exactly the element's text (single-line check on unique tokens)
+                let custom = c.meta.strs();
+                let dom = dom_of(r);
+                let text = lines.join("\n");
+                walk(&dom, &mut |n, anc| {
+                    if (n.is("em") || n.is("i")) && !anc.iter().any(|a| a.is("pre")) {
+                        if let [DNode::Text(t)] = n.kids() {
+                            let toks: Vec<&str> = t.split_whitespace().collect();
+                            if toks.len() == 1 && !t.starts_with(char::is_whitespace) && !t.ends_with(char::is_whitespace) {
+                                let want = format!("{}{}{}", custom[2], toks[0], custom[3]);
+                                if text.contains(toks[0]) && !text.contains(&want) && str_width(&want) + 12 < c.spec.width && !has_element(&dom, &["table"]) {
+                                    v.push(viol(i, "emphasis affixes are not verbatim around the element", format!("wanted {:?}", want), None));
+                                }
+                            }
+                        }
+                    }
+                });
+            }
+        }
+    }
+    for grp in groups(cases) {
+        if grp.len() != 2 {
+            continue;
+        }
+        let (a, b) = (grp[0], grp[1]);
+        if cases[a].meta.role() != "outer" {
+            continue;
+        }
+        let (ra, rb) = match (&results[a], &results[b]) {
+            (Some(x), Some(y)) => (x, y),
+            _ => continue,
+        };
+        let outer = match out_lines(&ra.outcome) {
+            Some(l) => l,
+            None => continue,
+        };
+        let inner = match out_lines(&rb.outcome) {
+            Some(l) => l,
+            None => continue,
+        };
+        let pf = &cases[a].meta.strs()[0];
+        let pr = &cases[a].meta.strs()[1];
+        let expect: Vec<String> = inner.iter().enumerate().map(|(k, l)| format!("{}{}", if k == 0 { pf } else { pr }, l)).collect();
+        let norm = |v: &Vec<String>| v.iter().map(|l| l.trim_end().to_string()).collect::<Vec<_>>();
+        if norm(&expect) != norm(&outer) {
+            v.push(viol(a, "content is not wrapped to the width minus the prefix's display width", format!("{} prefix {:?}: expected {:?} got {:?}", cases[a].slice, pf, expect, outer), None));
+        }
+    }
+    v
+}
+fn nontrivial_c16(c: &Case, r: &RunResult) -> bool {
+    c.meta.role() != "inner" && out_lines(&r.outcome).map(|l| l.len() >= 2).unwrap_or(false) && c.spec.cfg.custom.iter().any(|s| !s.is_ascii())
+}
+
+pub fn prop_def5(id: &str) -> Option<PropDef> {
+    match id {
+        "C05" => Some(PropDef { id: "C05", generate: gen_c05, check: check_c05, nontrivial: nontrivial_tables, project: ident, deadline_ms: 20000 }),
+        "C06" => Some(PropDef { id: "C06", generate: gen_c06, check: check_c06, nontrivial: nontrivial_tables, project: ident, deadline_ms: 20000 }),
+        "C07" => Some(PropDef { id: "C07", generate: gen_c07, check: check_c07, nontrivial: nontrivial_c07, project: ident, deadline_ms: 20000 }),
+        "C16" => Some(PropDef { id: "C16", generate: gen_c16, check: check_c16, nontrivial: nontrivial_c16, project: ident, deadline_ms: 20000 }),
+        _ => None,
+    }
 }
